@@ -1,4 +1,5 @@
 import Ark.Props.C07
+import Ark.Props.C07Src
 
 #print axioms Ark.Props.C07.reach_inv
 #print axioms Ark.Props.C07.locks_exact
@@ -28,6 +29,6 @@ import Ark.Props.C07
 #print axioms Ark.Props.C07.opShrink_locked
 #print axioms Ark.Props.C07.registerComponent_locked
 #print axioms Ark.Props.C07.lock_checked_first_in_source
-#print axioms Ark.Props.C07.src_bitPool_get
-#print axioms Ark.Props.C07.src_bitPool_recycle
-#print axioms Ark.Props.C07.src_bitPool_reset
+#print axioms Ark.Props.C07Src.src_bitPool_get
+#print axioms Ark.Props.C07Src.src_bitPool_recycle
+#print axioms Ark.Props.C07Src.src_bitPool_reset
